@@ -766,6 +766,11 @@ ODD_TEXTS = [
     ("numeric-looking", " 007"),
     ("empty", ""),
     ("plain", "West"),
+    # characters XML 1.0 cannot carry: the unchanged library refuses the call (nothing is added, nothing to compare);
+    # IF a call with such a label is accepted, cache and workbook must still agree
+    ("unrepresentable", "Q1\x1bForecast"),
+    ("unrepresentable", "tab\x0bsep"),
+    ("unrepresentable", "end\uffff"),
 ]
 
 
